@@ -293,6 +293,16 @@ def r2b(ctx):
                  key=f'seen-monotone:{name}', what=f'{CLS}.{name} forgets which files were already written (self.seen reset)')
     if not bad:
         ctx.emit('C19-R2b', True, HANDLELIM, cls, 'self.seen is only ever added to outside the constructor', key='seen-monotone')
+    # ... and belongs to the writer: it is created in the constructor, not shared by all limiters as a class attribute (a second writer in
+    # the same process would append to the files of the first instead of truncating its own)
+    init = [m for m in cls.body if isinstance(m, ast.FunctionDef) and m.name == '__init__']
+    per_instance = bool(init) and any(isinstance(n, ast.Assign) and any(src(t) == 'self.seen' for t in n.targets) and isinstance(n.value, ast.Call) and src(n.value) == 'set()'
+                                      for n in walk_no_nested(init[0]))
+    class_level = [n for n in cls.body if isinstance(n, (ast.Assign, ast.AnnAssign)) and any(src(t) == 'seen' for t in (n.targets if isinstance(n, ast.Assign) else [n.target]))]
+    ctx.emit('C19-R2b', per_instance and not class_level, HANDLELIM, class_level[0] if class_level else (init[0] if init else cls),
+             'the set of written paths is created per limiter in the constructor' if per_instance and not class_level else
+             'the set of written paths is a class attribute / not created in the constructor: all limiters of a process share it', key='seen-per-instance',
+             what='HandleLimiter.seen is shared between instances')
 
 
 @rule('C19', 'C19-R3', 'the open-failure arm raises only when no other handle is open (len(openHandles) <= 1, the '
@@ -497,6 +507,31 @@ def r5(ctx):
     g = ctx.fn(FQHANDLE, 'FastqHandle.close')
     ok = any(isinstance(n, ast.Call) and src(n.func) == 'self.handles.close' for n in walk_no_nested(g))
     ctx.emit('C19-R5', ok, FQHANDLE, g, 'FastqHandle.close closes the limiter (flushes every gzip member)', key='sc-close', nontrivial=False)
+
+
+@rule('C19', 'C19-R6', 'no arithmetic of the limiter can fail on a legal setting: a configuration value (constructor parameter stored on self) is never a divisor / '
+                       'modulus (pruneEvery = 0 and maxHandles = 0 are accepted settings meaning "prune after every write" / "keep nothing open")')
+def r6(ctx):
+    cls = ctx.ix.cls(HANDLELIM, CLS)
+    init = [m for m in cls.body if isinstance(m, ast.FunctionDef) and m.name == '__init__']
+    params = {a.arg for a in init[0].args.args[1:]} if init else set()
+    config = {src(t) for n in (walk_no_nested(init[0]) if init else []) if isinstance(n, ast.Assign) and isinstance(n.value, ast.Name) and n.value.id in params for t in n.targets}
+    bad = []
+    n = 0
+    for m in cls.body:
+        if not isinstance(m, ast.FunctionDef):
+            continue
+        for b in walk_no_nested(m):
+            if isinstance(b, (ast.BinOp, ast.AugAssign)) and isinstance(b.op, (ast.Mod, ast.Div, ast.FloorDiv)):
+                n += 1
+                right = b.right if isinstance(b, ast.BinOp) else b.value
+                if isinstance(b, ast.BinOp) and isinstance(b.left, ast.Constant) and isinstance(b.left.value, str):
+                    continue        # string formatting
+                if src(right) in config or (names_in(right) & params):
+                    bad.append((m.name, b))
+    ctx.emit('C19-R6', not bad, HANDLELIM, bad[0][1] if bad else cls, f'{n} division / modulo operations in HandleLimiter, none by a configuration value' if not bad else
+             f'{CLS}.{bad[0][0]} computes `{src(bad[0][1])[:50]}`: the setting 0 (a legal value) raises ZeroDivisionError while a record is written', key='no-division-by-configuration',
+             what='HandleLimiter divides by a configuration value that may be 0')
 
 
 META = {
